@@ -227,9 +227,20 @@ def run(chk, args):
         if isinstance(rp, dict) and rp.get("mode") == "wsconn":
             from checks import c01_wsconn
             return c01_wsconn.replay(chk, rp)
+        if isinstance(rp, dict) and rp.get("kind") == "connectloop":
+            from checks import c01_connectloop
+            return c01_connectloop.replay_part(chk, rp)
         return _run_core(chk, args)
-    if only is None or only - {"wsconn"}:
+    if only is None or only - {"wsconn", "connectloop"}:
         _run_core(chk, args)
+    # the client's collection loop under a fake clock: peer deaths at session ages from seconds to hours
+    # (spec/ConnectLoop), see notes/ConnectLoop.md
+    if only is None or "connectloop" in only:
+        from checks import c01_connectloop
+        try:
+            c01_connectloop.run_connectloop_part(chk, chk.tier == "quick")
+        except vlib.Inconclusive as e:
+            chk.fail("connectloop part: %s" % e)
     if only is None or "wsconn" in only:
         from checks import c01_wsconn
         a2 = args
